@@ -265,7 +265,9 @@ let do_compile args =
      | GOk ds -> "OK\t" ^ String.concat ";" (List.map decl_str ds) ^ "\t" ^ tail
      | GFail (i, n, e) -> Printf.sprintf "ERR\t%d\t%s\t%s\t%s" (int_of_nat i) (hex n) (cerr_str e) tail
      | GPanic (i, p) -> Printf.sprintf "PANIC\t%d\t%s\t%s" (int_of_nat i) (match p with PDigit -> "digit" | PNoTypes -> "no-types") tail
-     | GOverflow i -> Printf.sprintf "OVERFLOW\t%d\t%s" (int_of_nat i) tail)
+     | GOverflow i -> Printf.sprintf "OVERFLOW\t%d\t%s" (int_of_nat i) tail
+     | GBadIdent n -> Printf.sprintf "ERR\t0\t\tbad-ident:%s\t%s" (hex n) tail
+     | GCycle -> Printf.sprintf "ERR\t0\t\tinclude-cycle\t%s" tail)
   | _ -> "BADARGS"
 
 let pretty args =
